@@ -4,6 +4,7 @@
 package world
 
 import (
+	"crypto/sha1"
 	"crypto"
 	"crypto/ecdsa"
 	"crypto/rsa"
@@ -131,6 +132,11 @@ func MintCert(keyIdx int, nb, na time.Time, serial int64) *Cert {
 		BasicConstraintsValid: true,
 		SignatureAlgorithm:    x509.SHA256WithRSA,
 	}
+	// a subject key identifier as real IdP certificates carry one (SHA-1 of the public key bytes)
+	if pkb, err := x509.MarshalPKIXPublicKey(k.Signer.Public()); err == nil {
+		h := sha1.Sum(pkb)
+		tpl.SubjectKeyId = h[:]
+	}
 	der, err := x509.CreateCertificate(zeroReader{}, tpl, caTpl, k.Signer.Public(), ca.RSA)
 	if err != nil {
 		panic(err)
@@ -145,6 +151,34 @@ func MintCert(keyIdx int, nb, na time.Time, serial int64) *Cert {
 	}
 	certCache[ck] = c
 	return c
+}
+
+// MintLookalike returns a certificate for pool key keyIdx that copies subject, issuer, serial number,
+// validity and subject key identifier of tpl (a certificate of ANOTHER key): what somebody who only
+// knows the public certificate can make for a key of their own.
+func MintLookalike(tplCert *Cert, keyIdx int) *Cert {
+	k := Key(keyIdx)
+	ca := Key(7)
+	caTpl := &x509.Certificate{SerialNumber: big.NewInt(1), Subject: pkix.Name{CommonName: "verifsim-ca"}}
+	tpl := &x509.Certificate{
+		SerialNumber:          tplCert.X509.SerialNumber,
+		Subject:               tplCert.X509.Subject,
+		NotBefore:             tplCert.X509.NotBefore,
+		NotAfter:              tplCert.X509.NotAfter,
+		KeyUsage:              tplCert.X509.KeyUsage,
+		BasicConstraintsValid: true,
+		SignatureAlgorithm:    x509.SHA256WithRSA,
+		SubjectKeyId:          tplCert.X509.SubjectKeyId,
+	}
+	der, err := x509.CreateCertificate(zeroReader{}, tpl, caTpl, k.Signer.Public(), ca.RSA)
+	if err != nil {
+		panic(err)
+	}
+	xc, err := x509.ParseCertificate(der)
+	if err != nil {
+		panic(err)
+	}
+	return &Cert{KeyIdx: keyIdx, DER: der, X509: xc}
 }
 
 type zeroReader struct{}
